@@ -69,6 +69,9 @@ def start_tables():
         return Table(mat, ['p', 'q'], ['s1', 's3'], [{'k': '1'}, {'k': '2'}], None)
     S['stored0_2x2'] = (stored0, M(['p', 'q'], ['s1', 's3'], [[2, 0], [0, 3]],
                                    [{'k': '1'}, {'k': '2'}], None))
+    # an all-zero table given as an empty list of entries (what the JSON reader hands over for "data": [])
+    S['emptylist2x2'] = (lambda: Table([], ['p', 'q'], ['s3', 's1'], None, [{'g': 'u'}, {'g': 'v'}]),
+                         M(['p', 'q'], ['s3', 's1'], [[0, 0], [0, 0]], None, [{'g': 'u'}, {'g': 'v'}]))
     D3 = [[2, 1, 0], [0, 3, 4]]
     S['int2x3'] = (lambda: Table(np.array(D3, float), ['o1', 'o2'], ['a', 'b', 'c'],
                                  [{'k': '1'}, {'k': '2'}],
